@@ -63,6 +63,11 @@ func (c *SubscriptionManager) AddSubscription(remoteDevice api.DeviceRemoteInter
 	c.mux.Lock()
 	defer c.mux.Unlock()
 
+	// the connection was removed while this request was processed, its entries are or will be cleaned
+	if device, ok := remoteDevice.(*DeviceRemote); ok && device.removed.Load() {
+		return errors.New("the connection of the remote device was removed")
+	}
+
 	for _, item := range c.subscriptionEntries {
 		if reflect.DeepEqual(item.ServerFeature, serverFeature) && reflect.DeepEqual(item.ClientFeature, clientFeature) {
 			return fmt.Errorf("requested subscription is already present")
